@@ -47,6 +47,17 @@ func dateCmp(c *ctx, y1, m1, d1, y2, m2, d2 int, tag string) {
 	c.w.Emit(fmt.Sprintf("date-cmp %d %d %d %d %d %d", y1, m1, d1, y2, m2, d2), out, tag)
 }
 
+// the same under another process zone (dates are local midnights: the verdict must not depend on it)
+func dateCmpIn(c *ctx, zone *time.Location, y1, m1, d1, y2, m2, d2 int, tag string) {
+	saved := time.Local
+	time.Local = zone
+	defer func() { time.Local = saved }()
+	p := types.ToDate(y1, time.Month(m1), d1)
+	q := types.ToDate(y2, time.Month(m2), d2)
+	out := guard(func() string { return b01(p.Before(q)) + " " + b01(p.Equals(q)) + " " + b01(p.After(q)) })
+	c.w.Emit(fmt.Sprintf("date-cmp %d %d %d %d %d %d %s", y1, m1, d1, y2, m2, d2, zone.String()), out, tag, "zone/"+zone.String())
+}
+
 func hhmmCmp(c *ctx, h1, m1, h2, m2 int, tag string) {
 	p := types.NewHHmm(h1, m1)
 	q := types.NewHHmm(h2, m2)
@@ -88,6 +99,31 @@ func streamOrder(c *ctx) {
 			dateCmp(c, n.Year(), int(n.Month()), n.Day(), t.Year(), int(t.Month()), t.Day(), "date/adjacent-rev")
 			dateCmp(c, t.Year(), int(t.Month()), t.Day(), t.Year(), int(t.Month()), t.Day(), "date/equal")
 			t = n
+		}
+	}
+	// other process zones: adjacent days around the Unix epoch, year 1/2, 1999/2000 and 9998/9999, plus random pairs
+	zones := []*time.Location{time.FixedZone("UTC+1", 3600), time.FixedZone("UTC+10", 36000), time.FixedZone("UTC-5", -18000), time.FixedZone("UTC-11", -39600)}
+	for _, n := range []string{"Europe/London", "America/Santiago", "Asia/Kolkata"} {
+		if l, err := time.LoadLocation(n); err == nil {
+			zones = append(zones, l)
+		}
+	}
+	for _, z := range zones {
+		for _, start := range []time.Time{time.Date(1969, 12, 20, 0, 0, 0, 0, time.UTC), time.Date(1, 1, 2, 0, 0, 0, 0, time.UTC),
+			time.Date(1999, 12, 20, 0, 0, 0, 0, time.UTC), time.Date(9999, 12, 1, 0, 0, 0, 0, time.UTC), time.Date(2024, 2, 20, 0, 0, 0, 0, time.UTC)} {
+			t := start
+			for i := 0; i < 24; i++ {
+				n := t.AddDate(0, 0, 1)
+				dateCmpIn(c, z, t.Year(), int(t.Month()), t.Day(), n.Year(), int(n.Month()), n.Day(), "date/zone-adjacent")
+				dateCmpIn(c, z, n.Year(), int(n.Month()), n.Day(), t.Year(), int(t.Month()), t.Day(), "date/zone-adjacent-rev")
+				dateCmpIn(c, z, t.Year(), int(t.Month()), t.Day(), t.Year(), int(t.Month()), t.Day(), "date/zone-equal")
+				t = n
+			}
+		}
+		for i := 0; i < 300*c.scale; i++ {
+			y1, m1, d1 := randDate(r)
+			y2, m2, d2 := randDate(r)
+			dateCmpIn(c, z, y1, m1, d1, y2, m2, d2, "date/zone-random")
 		}
 	}
 	for i := 0; i < 40000*c.scale; i++ {
